@@ -13,6 +13,7 @@ import (
 	"math"
 	"os"
 	"strconv"
+	"time"
 )
 
 type replayFile struct {
@@ -179,3 +180,38 @@ func TOMLBytes(v interface{}) []byte {
 
 // Enable switches on an optional summary/stub of the symbolic executor (no effect natively).
 func Enable(flag string) {}
+
+// ---- concurrency (E2) ----
+
+// RunConcurrent: symbolically, the goroutines spawned so far are run for k scheduler steps under every
+// interleaving (the schedule is a solver variable) and monitor is evaluated after every step. Natively the
+// goroutines simply run; the call waits for them to quiesce and evaluates monitor once.
+func RunConcurrent(k int, monitor func()) {
+	time.Sleep(time.Duration(Param("QUIESCE_MS", 30)) * time.Millisecond)
+	if monitor != nil {
+		monitor()
+	}
+}
+
+// AnyEnabled: some goroutine can take a step (symbolic only; natively unknown, reported as true).
+func AnyEnabled() bool { return true }
+
+// Live: a goroutine running a function whose name contains substr has not terminated (symbolic only).
+func Live(substr string) bool { return false }
+
+// BlockedIn: a goroutine is stopped inside a function whose name contains substr and cannot proceed.
+func BlockedIn(substr string) bool { return false }
+
+// Attempts: natively, schedule-dependent harnesses repeat their scenario under random jitter (the solver's
+// counterexample fixes the inputs, the interleaving has to be found again); symbolically one pass covers all.
+func Attempts() int { return Param("ATTEMPTS", 150) }
+
+var jitterState uint64 = 88172645463325252
+
+// Jitter sleeps for a pseudo-random 0-2 ms (native only).
+func Jitter() {
+	jitterState ^= jitterState << 13
+	jitterState ^= jitterState >> 7
+	jitterState ^= jitterState << 17
+	time.Sleep(time.Duration(jitterState%2000) * time.Microsecond)
+}
